@@ -25,6 +25,16 @@ package aggregate
 // The label hash only covers every grouping label if the list is sorted (C04; C11: whatever order the query wrote them in):
 //@   ensures[C04,C11] grouping-labels-sorted: istype(result0, *aggregate.kAggregate) && sortedNames(cast(result0, *aggregate.kAggregate).labels) &&
 //@       len(cast(result0, *aggregate.kAggregate).labels) == len(labels) && cast(result0, *aggregate.kAggregate).by == by
+// topk keeps the larger values, bottomk the smaller ones; a NaN never displaces a number (both comparators
+// are false when either side is NaN): which series survive does not depend on the order of arrival (C11).
+//@   ensures[C04,C11] comparator-of-the-aggregation: ref(cast(result0, *aggregate.kAggregate).compare) ==
+//@       ite(aggregation == parser.TOPK, funcid("execution/aggregate.NewKHashAggregate$1"), funcid("execution/aggregate.NewKHashAggregate$2"))
+//@ func NewKHashAggregate$1
+//@   assigns nothing
+//@   ensures[C04,C11] topk-prefers-the-larger-value: result == (f < s)
+//@ func NewKHashAggregate$2
+//@   assigns nothing
+//@   ensures[C04,C11] bottomk-prefers-the-smaller-value: result == (s < f)
 
 // ---- vector_table.go: aggregation over all series (by ()) ----------------------------------------
 // The accumulator of a vectorized table may be a gonum function that panics on an empty slice:
@@ -220,7 +230,7 @@ package aggregate
 //@   ensures[C04,C07] sum-reset-clears-the-state: value == 0.0
 //@ func makeAccumulatorFunc$2$1
 //@   ensures[C04] max-add-has-value: hasValue
-//@   ensures[C04] max-add-folds-the-sample: value == ite(!old(hasValue) || old(value) < v || isnan(old(value)), v, old(value))
+//@   ensures[C04,C11] max-add-folds-the-sample: value == ite(!old(hasValue) || old(value) < v || isnan(old(value)), v, old(value))
 //@ func makeAccumulatorFunc$2$2
 //@   ensures[C04] max-value: result == value
 //@ func makeAccumulatorFunc$2$3
@@ -230,7 +240,7 @@ package aggregate
 //@   ensures[C04,C07] max-reset-clears-the-state: value == 0.0
 //@ func makeAccumulatorFunc$3$1
 //@   ensures[C04] min-add-has-value: hasValue
-//@   ensures[C04] min-add-folds-the-sample: value == ite(!old(hasValue) || old(value) > v || isnan(old(value)), v, old(value))
+//@   ensures[C04,C11] min-add-folds-the-sample: value == ite(!old(hasValue) || old(value) > v || isnan(old(value)), v, old(value))
 //@ func makeAccumulatorFunc$3$2
 //@   ensures[C04] min-value: result == value
 //@ func makeAccumulatorFunc$3$3
@@ -300,6 +310,7 @@ package aggregate
 // name are deleted (the reference engine: lb.Del(grouping...); lb.Del(labels.MetricName)); for by(...)
 // only the grouping labels are kept. The label algebra itself (labels.Builder, hashing) is assumed.
 //@ func hashMetric
+//@   at labels.(*Builder).Labels assert[C17] result-labels-are-built-into-fresh-memory: isnil($res)
 //@   assigns nothing
 //@   requires[C04,C11] grouping-labels-sorted: sortedNames(grouping)
 //@   ensures[C04,C19] without-deletes-the-grouping-labels-and-the-metric-name: without ==> ncalls("labels.(*Builder).Del") == 2 && ncalls("labels.(*Builder).Keep") == 0
